@@ -95,6 +95,26 @@ func genC14(tier string, r *rng) {
 		emit("b64", hx(s))
 		emit("b64go", encNames[r.intn(4)], hx(s))
 	}
+	// long texts with a defect at EVERY quantum position: padding in the middle (the text of one byte string followed by the
+	// text of another: a decoder that works chunk by chunk forgets that a chunk ended in '='), a stray character, a missing
+	// character — short strings cannot reach the buffer boundaries of streaming decoders (680, 1192, 1876, 2728, 4096 ...)
+	{
+		step := 4
+		tail := base64.StdEncoding.EncodeToString([]byte("more data after the padding"))
+		for q := 4; q <= 4400; q += step {
+			nb := q/4*3 - 1 - (q/4)%2 // 1 or 2 bytes short of a whole quantum: the text ends in "=" or "=="
+			a := base64.StdEncoding.EncodeToString(r.bytes(nb))
+			emit("b64", hx([]byte(a+tail)))
+			if (q/step)%8 == 0 {
+				u := base64.URLEncoding.EncodeToString(r.bytes(nb))
+				emit("b64", hx([]byte(u+u)))
+				raw := base64.RawStdEncoding.EncodeToString(r.bytes(q / 4 * 3))
+				emit("b64", hx([]byte(raw[:q/2]+"*"+raw[q/2:])))
+				emit("b64", hx([]byte(raw[:len(raw)-3])))
+				emit("b64", hx([]byte(a[:q/2]+"\n"+a[q/2:]+"\n"+tail)))
+			}
+		}
+	}
 	// round trips: random bytes, four encodings, wrap widths, LF / CRLF
 	nt := 2000
 	if tier == "thorough" {
